@@ -33,6 +33,8 @@ type Obligation struct {
 	Pos    string
 	Extra  []string // extra declarations/assertions local to this obligation
 	Batch  string     // obligations with the same batch key share one incremental solver run
+	localSlice bool   // (solver driver) build the query with the aggressive local slice
+	noLocal   bool
 	NoStatics bool    // the query carries its own selection of table axioms in Extra
 	Subs   []*SubGoal // when non-empty: the obligation is the conjunction of these goals (one per return site)
 	Expect string   // "unsat" normally; "sat" for vacuity covers
@@ -106,6 +108,7 @@ type VC struct {
 	ifacePtr map[string]*PtrDesc
 	readLog  map[string]bool
 	pureReads []string
+	hiddenTables map[string]bool
 	effCall  *ssa.CallCommon
 	effFrame *Frame
 	durParts map[string][2]string // time.Duration terms known as (seconds, nanosecond difference)
@@ -133,7 +136,7 @@ func newVC(w *World, fn *ssa.Function, c *Contract) *VC {
 	return &VC{w: w, fn: fn, contract: c, declared: map[string]bool{}, pureDone: map[*SpecFn]bool{},
 		heapSort: map[string]string{}, strDone: map[int]bool{}, strSrc: map[string]*strSource{}, strCat: map[string][2]Val{},
 		tableDone: map[string]bool{}, ordinals: map[string]int{}, trusted: map[string]bool{}, snapArrays: map[string][]string{},
-		nonNil: map[string]bool{}, ghostSorts: map[string]string{}, revealed: map[string]bool{}, ifacePtr: map[string]*PtrDesc{}, rtypeOf: map[string]Val{}, freshKeys: map[string]bool{}, dirty: map[string]bool{}, durParts: map[string][2]string{}}
+		nonNil: map[string]bool{}, ghostSorts: map[string]string{}, revealed: map[string]bool{}, ifacePtr: map[string]*PtrDesc{}, rtypeOf: map[string]Val{}, freshKeys: map[string]bool{}, dirty: map[string]bool{}, durParts: map[string][2]string{}, hiddenTables: map[string]bool{}}
 }
 
 type outsideSubset struct{ msg string }
